@@ -738,6 +738,13 @@ Definition spec_apply (s : pstate) (d a : nat) (g : N) (adv : N)
        | Some (st, m) => PNext (mkP st m (p_pc s + adv) (p_gas s - g))
        end.
 
+(* byte values that are not instructions of this instruction set *)
+Definition spec_unassigned (op : N) : bool :=
+  (op =? 12) || (op =? 13) || (op =? 14) || (op =? 15) || (op =? 30) || (op =? 31)
+  || ((33 <=? op) && (op <=? 47)) || ((72 <=? op) && (op <=? 79))
+  || ((92 <=? op) && (op <=? 95)) || ((165 <=? op) && (op <=? 239))
+  || ((246 <=? op) && (op <=? 249)) || (op =? 251) || (op =? 252) || (op =? 254).
+
 Definition spec_step (code : list N) (s : pstate) : presult :=
   let op := get_op code (p_pc s) in
   let st := p_stack s in
@@ -795,10 +802,7 @@ Definition spec_step (code : list N) (s : pstate) : presult :=
                      Some (b :: firstn (n - 1)%nat r ++ a :: skipn n r, m)
          | [] => None
          end)
-    else if (op =? 12) || (op =? 13) || (op =? 14) || (op =? 15) || (op =? 30) || (op =? 31)
-            || ((33 <=? op) && (op <=? 47)) || ((72 <=? op) && (op <=? 79))
-            || ((92 <=? op) && (op <=? 95)) || ((165 <=? op) && (op <=? 239))
-            || ((246 <=? op) && (op <=? 249)) || (op =? 251) || (op =? 252) || (op =? 254)
+    else if spec_unassigned op
     then PExc                                                              (* unassigned *)
     else PUnsupported
   end.
